@@ -216,7 +216,7 @@ let dobs_of_digest (d : string) : dobs =
         | _ -> failwith "disp_pred: bad syn") (lst (get "sy"));
     ob_na = (get "na" = "1"); ob_ch = z_of_string (get "ch"); ob_ct = z_of_string (get "ct") }
 
-(* disp_pred <c12|c13> <max_streams> | <observations> *)
+(* disp_pred <c12|c13|c10|c11> <max_streams> | <observations> *)
 let run_disp_pred toks =
   match split_bar [] toks with
   | ([which; max_streams], obs) ->
@@ -235,6 +235,17 @@ let run_disp_pred toks =
                 | _ -> None) (String.split_on_char ',' sent) in
         Some (rsts, fw, dobs_of_digest dg, syns)
       | _ -> None in
+    (* C11: every datagram the dispatcher sent in this step, as events of the model; None = a datagram the
+       real parser rejected or of a type the dispatcher never sends *)
+    let sent_events tok : devent list option =
+      match String.split_on_char '/' tok with
+      | [_res; sent; _; _] when sent <> "-" ->
+        let evs = List.map (fun t -> match String.split_on_char ':' t with
+            | [a; "4"; c; q; _] -> Some (EvSentSyn (z_of_string a, z_of_string c, z_of_string q))
+            | [a; "3"; c; _; k] -> Some (EvSentRst (z_of_string a, z_of_string c, z_of_string k))
+            | _ -> None) (String.split_on_char ',' sent) in
+        if List.mem None evs then None else Some (List.filter_map (fun x -> x) evs)
+      | _ -> Some [] in
     let rec go pre i = function
       | [] -> "OK"
       | tok :: rest ->
@@ -246,6 +257,16 @@ let run_disp_pred toks =
            if not ok then Printf.sprintf "FAIL %s_step_ok step=%d" (if which = "c10" then "c12" else which) i
            else if which = "c12" && not (c12_syn_fresh_ok pre syns) then Printf.sprintf "FAIL c12_syn_fresh_ok step=%d" i
            else go post (i + 1) rest) in
+    if which = "c11" then
+      (let rec first i = function
+          | [] -> "OK"
+          | tok :: rest ->
+            (match sent_events tok with
+             | None -> Printf.sprintf "FAIL c11_disp_datagram_parses step=%d" i
+             | Some evs -> if c11_dstep_ok evs then first (i + 1) rest
+               else Printf.sprintf "FAIL c11_dstep_ok step=%d" i) in
+       first 0 obs)
+    else
     if which = "c10" then
       (* socket half of C10: no datagram, however malformed, makes the dispatcher panic, evicts a live connection
          or forwards anything to a connection it does not name (c12_step_ok), whatever is sent to it *)
